@@ -4,6 +4,7 @@ CONSTANTS
   MaxNotes = 4
   None = None
   Calls = {}
+  JoinWaits = TRUE
   PopFirst = FALSE
   BadClose = {1, 2, 3, 5, 8}
   GateBySubscription = FALSE
